@@ -2,12 +2,12 @@
    Only statements here; every proof is [exact <lemma of Proofs/C20.v>].
    [reachable st] = st is the state after some history of requests and time passages from the empty directory. *)
 From Coq Require Import String.
-From Verif Require Import Lib.Py Lib.Tactics Model.C20Str Model.C20 Proofs.C20Dict Proofs.C20Up Proofs.C20.
+From Verif Require Import Lib.Py Lib.Tactics Model.C20Str Model.C20 Proofs.C20Dict Proofs.C20Up Proofs.C20 Proofs.C20More.
 Open Scope Z_scope.
 
 (* after every history the index invariant holds and no lifetime timer is overdue *)
 Theorem C20_invariant : forall ops, Inv (run_state empty_rd ops) /\ Settled (run_state empty_rd ops).
-Proof. exact (fun ops => run_state_Inv ops empty_rd empty_Inv empty_Settled). Qed.
+Proof. exact invariant_all_histories. Qed.
 Print Assumptions C20_invariant.
 
 (* index bijection: at most one registration per (ep, d), at most one per location; _by_key and _by_path hold the same
@@ -17,13 +17,13 @@ Theorem C20_indexes_bijective : forall st, reachable st ->
   (forall id, (exists k, In (k, id) (by_key st)) <-> (exists p, In (p, id) (by_path st))) /\
   (forall k id, In (k, id) (by_key st) -> r_key (obj st id) = k /\ In (r_path (obj st id), id) (by_path st)) /\
   (forall p id, In (p, id) (by_path st) -> r_path (obj st id) = p /\ In (r_key (obj st id), id) (by_key st)).
-Proof. exact (fun st R => indexes_bijective_lemma st (proj1 (reachable_Inv st R))). Qed.
+Proof. exact indexes_bijective_reachable. Qed.
 Print Assumptions C20_indexes_bijective.
 
 (* distinct registrations never share a location *)
 Theorem C20_distinct_locations : forall st k1 k2 id1 id2, reachable st ->
   In (k1, id1) (by_key st) -> In (k2, id2) (by_key st) -> k1 <> k2 -> r_path (obj st id1) <> r_path (obj st id2).
-Proof. exact (fun st k1 k2 id1 id2 R => distinct_locations_lemma st k1 k2 id1 id2 (proj1 (reachable_Inv st R))). Qed.
+Proof. exact distinct_locations_reachable. Qed.
 Print Assumptions C20_distinct_locations.
 
 (* a successful registration is answered with the location the endpoint already had (re-registration), or with a
@@ -40,13 +40,13 @@ Print Assumptions C20_rereg_keeps_location.
 (* a request answered with a 4.xx code leaves the directory exactly as it was: both indexes, every registration's
    lifetime, base, parameters, links and timer, and the clock *)
 Theorem C20_failed_op_unchanged : forall st o st' r, reachable st -> step st o = (st', r) -> is_4xx r = true -> st' = st.
-Proof. exact (fun st o st' r R => failed_op_unchanged_lemma st o st' r (proj1 (reachable_Inv st R)) (proj2 (reachable_Inv st R))). Qed.
+Proof. exact failed_op_unchanged_reachable. Qed.
 Print Assumptions C20_failed_op_unchanged.
 
 (* a registration is listed (indexed) iff its lifetime timer is pending, and then that timer is not yet due *)
 Theorem C20_listed_iff_live : forall st, reachable st -> forall id r, In (id, r) (objs st) ->
   ((exists k, In (k, id) (by_key st)) <-> exists due s, r_timer r = Some (due, s) /\ now st < due).
-Proof. exact (fun st R => listed_iff_live_lemma st (proj1 (reachable_Inv st R)) (proj2 (reachable_Inv st R))). Qed.
+Proof. exact listed_iff_live_reachable. Qed.
 Print Assumptions C20_listed_iff_live.
 
 (* the delete closures (expiry, DELETE, re-registration) never raise KeyError: no exception reaches the event loop and no
@@ -54,5 +54,96 @@ Print Assumptions C20_listed_iff_live.
 Theorem C20_closures_never_raise : forall ops,
   loop_exceptions (run_state empty_rd ops) = 0 /\
   Forall2 (fun o ob => is_lookup o = false -> o_resp ob <> Err KeyError) ops (run empty_rd ops).
-Proof. exact (fun ops => run_no_exception ops empty_rd empty_Inv empty_Settled). Qed.
+Proof. exact closures_never_raise_all_histories. Qed.
 Print Assumptions C20_closures_never_raise.
+
+(* time passing by dt: afterwards exactly those registrations are still listed whose lifetime (+ grace) ends after the new
+   instant, and each of them is untouched (same lt, base, parameters, links, timer) *)
+Theorem C20_expiry_exact : forall st dt, reachable st -> 0 <= dt ->
+  let st' := fst (step st (Advance dt)) in
+  now st' = now st + dt /\
+  forall k id, In (k, id) (by_key st') <->
+               (In (k, id) (by_key st) /\ exists due s, r_timer (obj st id) = Some (due, s) /\ now st + dt < due /\ obj st' id = obj st id).
+Proof. exact expiry_exact_reachable. Qed.
+Print Assumptions C20_expiry_exact.
+
+(* a successful write (re)starts the lifetime: the timer is due lt + 15 s after the request *)
+Theorem C20_write_restarts_lifetime : forall r remote p init t seq r', update_params r remote p init t seq = UpOk r' ->
+  r_key r' = r_key r /\ r_path r' = r_path r /\ r_links r' = r_links r /\ r_timer r' = Some (t + (r_lt r' + GRACE_PERIOD) * 1000000, seq).
+Proof. exact update_params_ok. Qed.
+Print Assumptions C20_write_restarts_lifetime.
+
+(* any request other than the passage of time leaves every registration it does not address untouched and listed, unless it
+   is the re-registration of that registration's own (ep, d); and whatever it lists afterwards of the older registrations it
+   does not address was listed before with the same fields: parameters and links are those of the latest write *)
+Theorem C20_other_registrations_untouched : forall st o st' r, reachable st -> is_advance o = false -> step st o = (st', r) ->
+  (forall k id, In (k, id) (by_key st') -> id < next_id st -> Some id <> target st o -> In (k, id) (by_key st) /\ obj st' id = obj st id) /\
+  (forall k id, In (k, id) (by_key st) -> Some id <> target st o ->
+     (In (k, id) (by_key st') /\ obj st' id = obj st id) \/ (exists loc, r = Created loc /\ k = r_key (obj (fst (handle st o)) (next_id st)))).
+Proof. exact other_registrations_untouched_reachable. Qed.
+Print Assumptions C20_other_registrations_untouched.
+
+(* lookup exactness: the unfiltered lookups render exactly the registrations whose lifetime timer is pending and not due,
+   each once, under pairwise distinct (ep, d) and pairwise distinct locations *)
+Theorem C20_lookup_exact : forall st, reachable st ->
+  ep_lookup st [] None = Content (str_links (map get_host_link (get_endpoints st))) /\
+  res_lookup st [] None = Content (str_links (map strip_anchor (flat_map get_based_links (get_endpoints st)))) /\
+  (forall r, In r (get_endpoints st) <-> exists id due s, In (id, r) (objs st) /\ r_timer r = Some (due, s) /\ now st < due) /\
+  NoDup (map r_key (get_endpoints st)) /\ NoDup (map r_path (get_endpoints st)).
+Proof. exact lookup_exact_reachable. Qed.
+Print Assumptions C20_lookup_exact.
+
+(* an endpoint lookup with a single criterion k=v lists exactly the live registrations satisfying that criterion, in index order
+   (or fails as the criterion's evaluation fails) *)
+Theorem C20_lookup_single_criterion : forall st s k v, split_eq s = (k, v) -> is_paging k = false ->
+  ep_lookup st [s] None =
+  match filter_m (ep_stage k (make_matcher v, in_strs k ["if"; "rt"]%string) (if String.eqb k "href" then SHref else SGeneric)) (get_endpoints st) with
+  | Ok l => Content (str_links (map get_host_link l))
+  | Raise e => lookup_error e
+  end.
+Proof. exact ep_lookup_single_lemma. Qed.
+Print Assumptions C20_lookup_single_criterion.
+
+(* ---- non-vacuity and witnesses (all by computation) *)
+Definition lf (ls : list link) : body := {| b_cf := Some 40; b_payload := PLinks ls |}.
+Definition nobody : body := {| b_cf := None; b_payload := PLinks [] |}.
+Definition h1 : ostr := Some "coap://h1"%string.
+Definition demo : list op :=
+  [Register h1 ["ep=a"; "lt=100"]%string (lf [{| l_href := "/s/t"; l_attrs := [("rt", Some "temp")]%string |}]);
+   Register h1 ["ep=b"; "d=x"; "et=q"]%string (lf []);
+   Advance 50000000;
+   UpdatePost ["1"; ""]%string h1 ["lt=60"]%string nobody;
+   Register h1 ["ep=a"; "lt=abc"]%string (lf []);
+   Advance 74999999].
+
+(* a reachable state with two live registrations at distinct locations; the failed re-registration (lt=abc, 4.00) changed nothing *)
+Example C20_demo_state :
+  let st := run_state empty_rd demo in
+  idx_by_key st = [("a", None, 1, 60); ("b", Some "x", 2, 90000)]%string /\ idx_by_path st = [(1, "a", None); (2, "b", Some "x")]%string /\
+  ep_lookup st [] None = Content "</reg/1/>;ep=""a"";base=""coap://h1"";rt=""core.rd-ep"",</reg/2/>;ep=""b"";d=""x"";et=""q"";base=""coap://h1"";rt=""core.rd-ep"""%string /\
+  res_lookup st [] None = Content "<coap://h1/s/t>;rt=""temp"""%string /\
+  map o_resp (run empty_rd demo) = [Created 1; Created 2; Tick; Changed; Err BadRequest; Tick].
+Proof. vm_compute. repeat split. Qed.
+(* one microsecond later the first registration (updated at 50 s with lt=60: due at 125 s) is gone, the other untouched *)
+Example C20_demo_expiry :
+  idx_by_key (fst (step (run_state empty_rd demo) (Advance 1))) = [("b", Some "x", 2, 90000)]%string /\
+  o_resp (last (run empty_rd (demo ++ [Register h1 ["ep=b"; "d=x"]%string (lf [])])) (observe empty_rd Tick)) = Created 2.
+Proof. vm_compute. repeat split. Qed.
+Example C20_reachable_nonvacuous : reachable (run_state empty_rd demo) /\ is_4xx (Err BadRequest) = true.
+Proof. split; [exists demo; reflexivity|reflexivity]. Qed.
+
+(* Witnesses of the open findings (known_findings.d/C20.json), modelled as the code behaves:
+   (1) an update answered 5.00 (not 4.xx) has already changed the lifetime; *)
+Example C20_failed_5xx_update_changes_lifetime_refuted :
+  let st := run_state empty_rd [Register h1 ["ep=a"; "lt=100"]%string (lf [])] in
+  let res := step st (UpdatePost ["1"; ""]%string h1 ["lt=555"; "base"]%string nobody) in
+  snd res = Err UnboundLocalError /\ is_4xx (snd res) = false /\ r_lt (obj st 0) = 100 /\ r_lt (obj (fst res) 0) = 555.
+Proof. vm_compute. repeat split. Qed.
+(* (2) with several criteria only the last one is applied (late-binding closures): ep=a&d=x lists b as well, ep=a&count=5 lists nothing *)
+Example C20_multi_criteria_lookup_refuted :
+  let st := run_state empty_rd [Register h1 ["ep=a"; "d=x"]%string (lf []); Register h1 ["ep=b"; "d=x"]%string (lf [])] in
+  ep_lookup st ["ep=a"; "d=x"]%string None = ep_lookup st ["d=x"]%string None /\
+  ep_lookup st ["ep=a"; "d=x"]%string None <> ep_lookup st ["ep=a"]%string None /\
+  ep_lookup st ["ep=a"; "count=5"]%string None = Content ""%string /\
+  ep_lookup st ["count=5"; "ep=a"]%string None = ep_lookup st ["ep=a"]%string None.
+Proof. vm_compute. repeat split. discriminate. Qed.
